@@ -53,7 +53,7 @@ theorem C03_valid_text_accepted (s : Str) (h : strOk s = true) :
   ⟨text_accepted s h, attr_accepted s h⟩
 
 /-- … and conversely a text with a character outside the XML `Char` production, written the way minidom writes it,
-    is rejected by the receiving side: the `_check_xml_chars` test is necessary (the defect fixed by 3589316) -/
+    is rejected by the receiving side: the `_check_xml_chars` test is necessary (the defect fixed by 3198ecf) -/
 theorem C03_illegal_char_is_illformed (s : Str) (h : strOk s = false) : wireText s = none := by
   unfold wireText; exact text_rejected s false h
 
@@ -106,7 +106,7 @@ theorem C03_request_headers_agree (C : Codec) (dn : Str) (spec : OpSpec) (ns : A
 /-- **request_valid (InvokeMethod)**: method parameters given as CIMParameter objects or (name, value) pairs /
     keyword arguments, values of every CIM type incl. arrays, references, embedded objects; `mparamShape` = a
     CIMParameter has a valid type name / embedded_object, references have a representation.  Needs the rejection of
-    nested and mixed arrays in `paramvalue` (fix 62f92a3): without it the statement is false. -/
+    nested and mixed arrays in `paramvalue` (fix dca0e65): without it the statement is false. -/
 theorem C03_invoke_valid (C : Codec) (K : KeyCodec) (dn : Str) (m obj : Arg) (params : List MParam) (h : Headers) (x : Xml)
     (hobj : argShape obj = true) (hparams : ∀ p ∈ params, mparamShape p = true)
     (hr : methodcall C K dn m obj params = .ok (h, x)) : validTree dtd x = true :=
@@ -124,7 +124,7 @@ theorem C03_invoke_headers_agree_partial (C : Codec) (K : KeyCodec) (dn : Str) (
       (n ++ ':' :: c) <+: hdr :=
   ⟨(methodcall_valid C K dn m obj params h x hobj hparams hr).2, methodcall_cimobject C K dn m obj params h x hr⟩
 
-/-- **ExportIndication**: the request is valid (the indication is sent as INSTANCE, fix 56615d8) and the
+/-- **ExportIndication**: the request is valid (the indication is sent as INSTANCE, fix 09ec1a6) and the
     CIMExportMethod header is the NAME of the EXPMETHODCALL element -/
 theorem C03_export_valid (C : Codec) (a : Arg) (h : Headers) (x : Xml) (hs : argShape a = true)
     (hr : exportIndication C a = .ok (h, x)) :
